@@ -101,6 +101,16 @@ PROPS = {
         assumptions=['programs that trip a usage assertion are excluded from the -O comparison (as the statement says)'],
         partial=['"independent of process / hash seed / memory layout" is not a theorem (runtime fact, multi-configuration differential only)'],
     ),
+    'C15': dict(
+        gen=['Kernel'], props=['C15', 'C01'], model=['Prim/KernelModel', 'Machine/Run', 'Judge/Judges'], harness='c15',
+        trusted_base=KERNEL_TB + MACHINE_TB + [
+            'shape templates: Loop.run/_run_events/_run_coroutine/__init__, StateHandler.assign, usim.run',
+            "CPython's threading.local and the GIL are assumed: thread isolation is a runtime fact, checked by running generated "
+            'simulations concurrently in real threads (thorough tier), not proved',
+        ],
+        assumptions=['objects are not shared between simulations (nested or parallel)'],
+        partial=['threads_isolated is not a theorem (runtime fact; differential runs in 8 real threads)'],
+    ),
 }
 
 #: texts for MANIFEST.json (level, note, technique, DESIGN.md section)
@@ -190,4 +200,15 @@ MANIFEST_TEXT = {
              'established by multi-configuration differential runs only',
         technique='Lean 4 ordering theorems + exact whole-machine traces + multi-configuration differential execution',
         design_ref='6 (C02), 9'),
+    'C15': dict(
+        level='Lean 4 theorems: run_returns_iff_quiescent, next_run/next_advance (C01), leak_iff_value (any returned value, also a '
+              'falsy one, is an ActivityLeak), finish_root (a root ending without value / with value / with exception), '
+              'assign_restores + nested_assign_restores (per-thread loop stack), nested_return_restores (the machine restores the '
+              'enclosing clock, step and queue). Tied by regenerated templates; exact whole-machine correspondence on runs with '
+              'returning / failing / blocked roots and nested run() calls; Lean judge (start time and order of roots, reported return '
+              'values, undisturbed outer clock, no simulation visible afterwards); thorough tier: the same simulations concurrently '
+              'in 8 real threads must reproduce their sequential traces.',
+        note='trusted: Lean kernel + standard axioms; templates; threading.local/GIL assumed (runtime clause is partial)',
+        technique='Lean 4 kernel theorems + exact whole-machine traces + Lean trace judge + real-thread differential runs',
+        design_ref='6 (C15), 9'),
 }
